@@ -59,5 +59,9 @@ func main() {
 		}
 		return
 	}
-	os.Exit(runProperty(*repo, *prop, *tier, *evid, *known))
+	rc := runProperty(*repo, *prop, *tier, *evid, *known)
+	if os.Getenv("DBFTLINT_DEBUG_STEPS") != "" {
+		fmt.Println("max demand steps", maxDemandSteps)
+	}
+	os.Exit(rc)
 }
